@@ -78,6 +78,15 @@ def check_db(db, model, what):
     got_pt = {(p, t) for p, ts in db.iter_packages_tags() for t in ts}
     got_tp = {(p, t) for t, ps in db.iter_tags_packages() for p in ps}
     require(got_pt == want and got_tp == want, "iter_packages_tags / iter_tags_packages after " + what)
+    # queries for names the collection does not hold: empty answers, and a query is not an edit
+    snap = (db.tag_count(), db.package_count(), sorted(db.iter_tags()), sorted(db.iter_packages()))
+    for name in PKGS + TAGS + ["zz", "f", "g"]:
+        if not db.has_package(name):
+            require(len(db.tags_of_package(name)) == 0, "tags of an absent package after " + what, name=name)
+        if not db.has_tag(name):
+            require(len(db.packages_of_tag(name)) == 0 and db.card(name) == 0, "packages of an absent tag after " + what, name=name)
+    snap2 = (db.tag_count(), db.package_count(), sorted(db.iter_tags()), sorted(db.iter_packages()))
+    require(snap2 == snap, "queries for absent names changed the collection after " + what, before=snap, after=snap2)
 
 
 def facet(t):
